@@ -401,6 +401,23 @@ def is_finished(desc):
     return desc["end"] is not None and res_f(desc["setup"]) and res_f(desc["teardown"]) and suites_f(desc["suites"])
 
 
+def py_finished(desc):
+    """Plain re-statement of Replay.finished (hypothesis of C18_stream_ok_finished)."""
+    def res_e(r):
+        return _truthy(r["end"]) and all(_truthy(s["end"]) for s in r["steps"])
+
+    def ores_e(r):
+        return r is None or res_e(r)
+
+    def test_e(t):
+        return t["result"]["status"] in ("skipped", "disabled") or res_e(t["result"])
+
+    def suites_e(suites):
+        return all(_truthy(s["end"]) and ores_e(s["setup"]) and ores_e(s["teardown"]) and all(test_e(t) for t in s["tests"])
+                   and suites_e(s["suites"]) for s in suites)
+    return _truthy(desc["end"]) and ores_e(desc["setup"]) and ores_e(desc["teardown"]) and suites_e(desc["suites"])
+
+
 def oracle(desc, obs):
     """C18 evaluated directly on what the implementation did. Returns (signature, text) or None."""
     if obs["error"]:
@@ -410,7 +427,7 @@ def oracle(desc, obs):
         leaf = ".".join(x for x in d.replace("[]", "").split(".") if x)
         short = leaf.split(".")[-2:] if "." in leaf else [leaf]
         return ("identity:" + ".".join(short), "the rebuilt report differs from the original at %s" % d)
-    why = py_stream_check(obs["events"], is_finished(desc))
+    why = py_stream_check(obs["events"], py_finished(desc))
     if why:
         return ("stream:" + why, "the replayed stream is not well formed: %s" % why)
     return None
@@ -431,6 +448,9 @@ def _subterms(desc):
     def suites(lst):
         for i in range(len(lst)):
             yield ("del", lst, i)
+        for i in range(len(lst)):
+            if lst[i]["suites"]:
+                yield ("hoist", lst, i)
         for s in lst:
             for k in ("setup", "teardown"):
                 if s[k] is not None:
@@ -459,6 +479,8 @@ def shrink(desc, pred, budget=400):
             op = list(_subterms(cand))[idx]
             if op[0] == "del":
                 del op[1][op[2]]
+            elif op[0] == "hoist":
+                op[1][op[2]:op[2] + 1] = op[1][op[2]]["suites"]
             else:
                 op[1][op[2]] = None
             budget -= 1
@@ -610,12 +632,12 @@ Definition TH := %d.
 Definition emit_eqb (a b : list event * option err) : bool :=
   list_eqb event_eqb (fst a) (fst b) && option_eqb err_eqb (snd a) (snd b).
 (* a replay case: report, recorded stream, exception of the replay, rebuilt report (None = same as tree r), expected `replayable`,
-   expected verdict of the grammar *)
-Definition rcase := (report * list event * option err * option report * bool * bool)%%type.
-Definition rel_replay (c : rcase) : bool := match c with (r, evs, e, _, _, _) => emit_eqb (replay_report_events NOW TH r) (evs, e) end.
+   expected verdict of the grammar, expected `finished` *)
+Definition rcase := (report * list event * option err * option report * bool * bool * bool)%%type.
+Definition rel_replay (c : rcase) : bool := match c with (r, evs, e, _, _, _, _) => emit_eqb (replay_report_events NOW TH r) (evs, e) end.
 Definition rel_writer (c : rcase) : bool :=
   match c with
-  | (r, evs, x, reb, _, _) =>
+  | (r, evs, x, reb, _, _, _) =>
       match aggregate evs, x with
       | Err Unmodelled, _ => true           (* outside the writer model (duplicate sibling): excluded *)
       | _, Some ValueError => true          (* the replay raised by itself, the writer saw a prefix *)
@@ -624,17 +646,12 @@ Definition rel_writer (c : rcase) : bool :=
       end
   end.
 Definition rel_grammar (c : rcase) : bool :=
-  match c with (r, evs, e, _, _, g) => Bool.eqb (sequential_ok replay_mode evs) g end.
-Definition rel_hyp (c : rcase) : bool := match c with (r, _, _, _, h, _) => Bool.eqb (replayable r) h end.
-(* a finished replayable report (End everywhere): the recorded stream must also satisfy the grammar with every bracket closed *)
-Definition all_ended (r : report) : bool :=
-  let res_f (x : result) := match r_status x with Some _ => forallb (fun s => match st_end s with Some _ => true | None => false end) (r_steps x) | None => false end in
-  let ores_f (o : option result) := match o with Some x => res_f x | None => true end in
-  match rp_end r with Some _ => true | None => false end && ores_f (rp_session_setup r) && ores_f (rp_session_teardown r)
-  && forallb (fun s => match s_end_of s with Some _ => true | None => false end && ores_f (s_setup_of s) && ores_f (s_teardown_of s)
-                       && forallb (fun t => res_f (t_result t)) (s_tests_of s)) (flatten_suites (rp_suites r)).
+  match c with (r, evs, e, _, _, g, _) => Bool.eqb (sequential_ok replay_mode evs) g end.
+Definition rel_hyp (c : rcase) : bool := match c with (r, _, _, _, h, _, _) => Bool.eqb (replayable r) h end.
+(* a finished replayable report: the recorded stream must also satisfy the grammar with every bracket closed *)
 Definition rel_strict (c : rcase) : bool :=
-  match c with (r, evs, _, _, _, _) => negb (replayable r && all_ended r) || stream_ok (mkMode false true) evs end.
+  match c with (r, evs, _, _, _, _, f) =>
+    Bool.eqb (finished r) f && (negb (replayable r && finished r) || sequential_ok finished_replay_mode evs) end.
 Definition agrees (c : rcase) : bool := rel_replay c && rel_writer c && rel_grammar c && rel_hyp c && rel_strict c.
 (* a writer case: a stream and what the real ReportWriter did with it *)
 Definition wcase := (list event * res report)%%type.
@@ -644,11 +661,11 @@ Definition wagrees (c : wcase) : bool := unmodelled c || res_eqb report_eqb (agg
 
 
 def c_rcase(c):
-    desc, obs, hyp, gram = c
+    desc, obs, hyp, gram, fin = c
     reb = None if (obs["rebuilt"] is None or obs["rebuilt"] == tree(desc)) else obs["rebuilt"]
-    return "(%s,\n %s,\n %s, %s, %s, %s)" % (G.c_report(desc), c_list(obs["events"], c_event),
-                                            c_opt(obs["error"], c_err), c_opt(reb, lambda d: "(%s)" % G.c_report(d)),
-                                            c_bool(hyp), c_bool(gram))
+    return "(%s,\n %s,\n %s, %s, %s, %s, %s)" % (G.c_report(desc), c_list(obs["events"], c_event),
+                                                c_opt(obs["error"], c_err), c_opt(reb, lambda d: "(%s)" % G.c_report(d)),
+                                                c_bool(hyp), c_bool(gram), c_bool(fin))
 
 
 def c_wcase(c):
@@ -691,7 +708,8 @@ def parse_first(out):
 
 RELS = ["Replay.replay_report_events = recorded stream and exception", "Writer.aggregate(recorded stream) = rebuilt report",
         "StreamOk.sequential_ok(recorded stream) = python bracket check", "Replay.replayable = python hypothesis",
-        "StreamOk.stream_ok in finished mode accepts the recorded stream of a finished replayable report"]
+        "Replay.finished = python re-statement, and StreamOk.sequential_ok finished_replay_mode accepts the recorded stream of "
+        "a finished replayable report"]
 
 
 # ----------------------------------------------------------------------------- the check
@@ -754,7 +772,9 @@ def check(run):
                                                         "events": so["events"]})
         elif obs["error"]:
             run.count("replay_raised:" + obs["error"])
-        rcases.append((desc, obs, hyp, expected_grammar(desc, obs)))
+        rcases.append((desc, obs, hyp, expected_grammar(desc, obs), py_finished(desc)))
+        if hyp and py_finished(desc):
+            run.count("replayable_and_finished")
         if i < 2:
             run.sample({"kind": kind, "replayable": hyp, "n_events": len(obs["events"]), "error": obs["error"],
                         "first_events": obs["events"][:4]})
@@ -820,7 +840,14 @@ def check(run):
 def replay(path):
     r = json.load(open(path))
     rp = r.get("replay") or {}
-    desc = rp.get("report") or ((r.get("broken") or [{}])[0].get("case") or {}).get("report")
+    case0 = ((r.get("broken") or [{}])[0].get("case") or {})
+    desc = rp.get("report") or case0.get("report")
+    if not desc and case0.get("events"):
+        # a perturbed stream on which Writer.aggregate and the real ReportWriter disagreed: show what the writer does now
+        wobs = run_writer(case0["events"])
+        print(json.dumps({"events": case0["events"], "writer": wobs}, indent=1, ensure_ascii=False)[:6000])
+        print("(model/implementation disagreement: re-run ./check C18 to see whether it persists)")
+        return 1
     if not desc:
         print("nothing to replay in", path)
         return 2
